@@ -173,6 +173,10 @@ func genBatchPoints(t *rapid.T, l Layout, now int64, id int, o histGenOpts) []MP
 				age = -rapid.Int64Range(1, 3*ar.Step+2).Draw(t, "future")
 			case r < 70:
 				age = genAge(t, l, a, false, "age")
+			case r < 74 && len(pts) > 1: // an earlier point supplied once more, unchanged (A .. B .. A)
+				p := pts[rapid.IntRange(0, len(pts)-1).Draw(t, "repeatOf")]
+				pts = append(pts, p)
+				continue
 			case r < 80 && len(pts) > 0: // duplicate of an earlier point's time or slot
 				p := pts[rapid.IntRange(0, len(pts)-1).Draw(t, "dupOf")]
 				age = now - p.T
@@ -319,6 +323,13 @@ func genHistoryAt(t *rapid.T, l Layout, o histGenOpts, now int64) HistCase {
 			}
 			if op.Advance < 1 {
 				op.Advance = 1
+			}
+			if rapid.IntRange(0, 7).Draw(t, "clockStepsBack") == 0 {
+				// the wall clock is stepped back (NTP): every call is judged by the clock it is given
+				back := rapid.Int64Range(1, 2*a.Step+1).Draw(t, "back")
+				if now-back > l.MaxRet()+coarse+1 {
+					op.Advance = -back
+				}
 			}
 			if now+op.Advance > hi {
 				op.Advance = 1
